@@ -94,3 +94,11 @@ def cases(tier, seed, ctx=None):
     # the pending response at close() over TLS: several MiB written and closed at once must reach the client whole, as over plain TCP
     yield ("tls", [1, b"GET /big HTTP/1.1\r\nHost: h\r\n\r\n", 5], "tls-big-response-at-close")
     yield ("tls", [1, b"GET /small HTTP/1.1\r\nHost: h\r\n\r\n", 5], "tls-small-response-at-close")
+
+    # requests the library refuses, followed by more bytes that reach the server in the SAME read: as a second TLS
+    # record sent back to back, and as one write of several KiB (decrypted in several steps); TLS and plain must answer alike
+    for j, h in enumerate([b"BOGUS", b"GET / HTTP/1.2", b"GET //[::1/x HTTP/1.1\r\nHost: h", b"GET  / HTTP/1.1\r\nHost: h", b"PATCH /x HTTP/1.0"]):
+        tail = rng.choice([b"GET /second HTTP/1.1\r\nHost: h\r\n\r\n", b"x" * 200])
+        yield ("tls", [1, h + b"\r\n\r\n" + tail, len(h) + 4, -1], "%srefused-then-second-record" % 'tls-')
+        big = (b"GET /again HTTP/1.1\r\nHost: h\r\n\r\n" + b"junk " * 40) * rng.choice([30, 90])
+        yield ("tls", [1, h + b"\r\n\r\n" + big, rng.choice([0, len(h) + 4, 3]), rng.choice([-1, 15])], "%srefused-then-several-KiB" % 'tls-')
